@@ -108,6 +108,7 @@
    HIget_access_rec     -- allocate a new access record
    HIupdate_version     -- determine whether new version tag should be written
    HIread_version       -- reads a version tag from a file
+   HIcompare_accrec_fileid -- match an access record against a file ID
    + */
 
 #include <errno.h>
@@ -208,6 +209,8 @@ static int HIcheckfileversion(int32 file_id);
 static int HIsync(filerec_t *file_rec);
 
 static int HIstart(void);
+
+static int HIcompare_accrec_fileid(const void *obj, const void *key);
 
 /*--------------------------------------------------------------------------
 NAME
@@ -435,6 +438,16 @@ Hclose(int32 file_id)
     file_rec = HAatom_object(file_id);
     if (BADFREC(file_rec))
         HGOTO_ERROR(DFE_ARGS, FAIL);
+
+    /* if the file stays open through other file IDs, the attach count check
+       below is not reached.  Reject this close if any access elt was started
+       through this particular file ID, as it could never be ended afterwards
+       and would keep the file record locked. */
+    if (file_rec->refcount > 1 && file_rec->attach > 0)
+        if (HAsearch_atom(AIDGROUP, HIcompare_accrec_fileid, &file_id) != NULL) {
+            HEreport("There are still active aids attached to file ID %d", (int)file_id);
+            HGOTO_ERROR(DFE_OPENAID, FAIL);
+        } /* end if */
 
     /* version tags */
     if ((file_rec->refcount > 0) && (file_rec->version.modified == 1))
@@ -2672,6 +2685,29 @@ HPcompare_filerec_path(const void *obj, const void *key)
 
     return ret_value;
 } /* HPcompare_filerec_path */
+
+/*--------------------------------------------------------------------------
+ NAME
+       HIcompare_accrec_fileid -- compare accrec file ID for the atom API
+ USAGE
+       int HIcompare_accrec_fileid(obj, key)
+       const void * obj;             IN: pointer to the access record
+       const void * key;             IN: pointer to the file ID
+ RETURNS
+       TRUE if the access record was started through the file ID,
+       FALSE otherwise
+ DESCRIPTION
+       Look inside the access record for the atom API and compare the
+       file ID it is attached to.
+--------------------------------------------------------------------------*/
+static int
+HIcompare_accrec_fileid(const void *obj, const void *key)
+{
+    const accrec_t *access_rec = obj;
+    const int32    *file_id    = key;
+
+    return (access_rec != NULL && access_rec->file_id == *file_id) ? TRUE : FALSE;
+} /* HIcompare_accrec_fileid */
 
 /*--------------------------------------------------------------------------
  NAME
